@@ -258,7 +258,7 @@ func (c *Ctx) redisAtomicPrimitives(r *redisRoles, rule string) {
 		}
 		sameKey := func(v ssa.Value) bool {
 			for _, w := range watched {
-				if ir.Path(w) == ir.Path(v) {
+				if ir.Path(w) == ir.Path(v) || r.sameMappedKeyV(w, v) {
 					return true
 				}
 			}
